@@ -101,17 +101,20 @@ class installed:
         from .core import SymScalar, Ctx as _Ctx
 
         def wrap(name):
-            orig = getattr(torch.Tensor, name)
+            cur = getattr(torch.Tensor, name)
+            orig = getattr(cur, "_tsv_orig", cur)          # nested installs: always delegate to the real method
 
             def method(self_, *a, **k):
                 if _Ctx.cur is not None and any(isinstance(v, SymScalar) for v in list(a) + list(k.values())):
                     return ops.HANDLERS[name](orig, (self_,) + a, k)
                 return orig(self_, *a, **k)
-            return orig, method
+            method._tsv_orig = orig
+            method.__name__ = name
+            return cur, method
         for name in ("new_full", "fill_", "masked_fill", "masked_fill_"):
             if name in ops.HANDLERS:
-                orig, method = wrap(name)
-                self._tensor_methods[name] = orig
+                cur, method = wrap(name)
+                self._tensor_methods[name] = cur
                 setattr(torch.Tensor, name, method)
         # dtype / device conversions of modules create new parameter objects (so a converted symbolic parameter gets its new dtype)
         self._ow = torch.__future__.get_overwrite_module_params_on_conversion()
